@@ -4,6 +4,7 @@ import (
 	"fmt"
 
 	"github.com/smarthome-go/homescript/v3/homescript/analyzer/ast"
+	"github.com/smarthome-go/homescript/v3/homescript/errors"
 	"github.com/smarthome-go/homescript/v3/homescript/runtime/value"
 )
 
@@ -74,10 +75,14 @@ func (self *Compiler) compileStmt(node ast.AnalyzedStatement) {
 			self.compileExpr(node.ReturnValue)
 		}
 
+		// Leaving the function also leaves every enclosing `try` block
+		self.popTryLabels(self.tryDepth, node.Span())
 		self.insert(newOneStringInstruction(Opcode_Jump, self.CurrFn().CleanupLabel), node.Span())
 	case ast.BreakStatementKind:
+		self.popTryLabels(self.tryDepth-self.currLoop().tryDepth, node.Span())
 		self.insert(newOneStringInstruction(Opcode_Jump, self.currLoop().labelBreak), node.Span())
 	case ast.ContinueStatementKind:
+		self.popTryLabels(self.tryDepth-self.currLoop().tryDepth, node.Span())
 		self.insert(newOneStringInstruction(Opcode_Jump, self.currLoop().labelContinue), node.Span())
 	case ast.LoopStatementKind:
 		node := node.(ast.AnalyzedLoopStatement)
@@ -90,6 +95,7 @@ func (self *Compiler) compileStmt(node ast.AnalyzedStatement) {
 			labelStart:    head_label,
 			labelBreak:    after_label,
 			labelContinue: head_label,
+			tryDepth:      self.tryDepth,
 		})
 		defer self.popLoop()
 
@@ -111,6 +117,7 @@ func (self *Compiler) compileStmt(node ast.AnalyzedStatement) {
 			labelStart:    head_label,
 			labelBreak:    after_label,
 			labelContinue: head_label,
+			tryDepth:      self.tryDepth,
 		})
 		defer self.popLoop()
 
@@ -160,6 +167,7 @@ func (self *Compiler) compileStmt(node ast.AnalyzedStatement) {
 			labelStart:    head_label,
 			labelBreak:    after_label,
 			labelContinue: update_label,
+			tryDepth:      self.tryDepth,
 		})
 		defer self.popLoop()
 
@@ -181,6 +189,13 @@ func (self *Compiler) compileStmt(node ast.AnalyzedStatement) {
 		}
 	default:
 		panic("Unreachable")
+	}
+}
+
+// Uninstalls the handlers of `count` enclosing `try` blocks (used by jumps that leave them).
+func (self *Compiler) popTryLabels(count int, span errors.Span) {
+	for i := 0; i < count; i++ {
+		self.insert(newPrimitiveInstruction(Opcode_PopTryLabel), span)
 	}
 }
 
